@@ -91,11 +91,10 @@ impl SegmentLogReader {
             file_size = self.file_size();
             match self.read_next_batch(offset, file_size).await? {
                 Some((batch, bytes_read)) => {
+                    let batch_position = offset;
                     offset += bytes_read;
-                    let last_offset_in_batch = batch.base_offset + batch.last_offset_delta as u64;
 
-                    if last_offset_in_batch >= index_range.end.offset as u64 || offset >= file_size
-                    {
+                    if batch_position >= index_range.end.position as u64 || offset >= file_size {
                         last_batch_to_read = true;
                     }
                     batches.push(batch);
@@ -163,10 +162,9 @@ impl SegmentLogReader {
             file_size = self.file_size();
             match self.read_next_batch(offset, file_size).await? {
                 Some((batch, bytes_read)) => {
+                    let batch_position = offset;
                     offset += bytes_read;
-                    let last_offset_in_batch = batch.base_offset + batch.last_offset_delta as u64;
-                    if offset >= file_size || last_offset_in_batch >= index_range.end.offset as u64
-                    {
+                    if offset >= file_size || batch_position >= index_range.end.position as u64 {
                         last_batch_to_read = true;
                     }
                     on_batch(batch)?;
